@@ -313,7 +313,86 @@ func c09manyHostsBody() {
 	sched.SetOutcome(fmt.Sprint(n))
 }
 
+// ---------------------------------------------------------------------------
+// C15 (H) more hosts than the check concurrency, some of them failing: every result counts for the host it was
+// obtained from.
+// alphabet  n in {cap+1, cap+60, 2*cap+5}; the failing hosts are the first 40 | the last 40 | every 50th (by address);
+//           3 rounds, fall threshold 1
+// oracle    after every round a host is unusable exactly if its own checks failed more than fall-threshold times
+// ---------------------------------------------------------------------------
+
+type scriptedChecker struct {
+	fails map[string]bool
+	n     map[string]int
+}
+
+func (c *scriptedChecker) Check(addr string, timeout time.Duration) error {
+	c.n[addr]++
+	if c.fails[addr] {
+		return fmt.Errorf("scripted failure")
+	}
+	return nil
+}
+
+func c15manyHostsBody() {
+	n := []int{MaximumConcurrency + 1, MaximumConcurrency + 60, 2*MaximumConcurrency + 5}[sched.Choose(sched.ClsInput, 3, "hosts")]
+	which := sched.Choose(sched.ClsInput, 3, "failing hosts")
+	var hs []*hostpkg.Host
+	chk := &scriptedChecker{fails: map[string]bool{}, n: map[string]int{}}
+	for i := 0; i < n; i++ {
+		a := fmt.Sprintf("10.%d.%d.%d:80", 1+i/65536, (i/256)%256, i%256)
+		hs = append(hs, hostpkg.New(a))
+		if which == 0 && i < 40 || which == 1 && i >= n-40 || which == 2 && i%50 == 7 {
+			chk.fails[a] = true
+		}
+	}
+	set := hostpkg.NewSet(hs...)
+	cfg := &pbhc.HealthCheck{Interval: time.Second, Timeout: time.Second, RiseThreshold: 1, FallThreshold: 1,
+		Checker: &pbhc.HealthCheck_TcpChecker{TcpChecker: &pbhc.TCPChecker{}}}
+	m, err := NewMonitor(cfg, set, log.New("verif"))
+	if err != nil || m == nil {
+		sched.Fail("harness-newmonitor", fmt.Sprint(err))
+		return
+	}
+	m.checker = chk
+	m.Start()
+	sched.WaitQuiescent()
+	tag := fmt.Sprintf("%d hosts (concurrency cap %d), failing hosts: %s", n, MaximumConcurrency, []string{"the first 40", "the last 40", "every 50th"}[which])
+	for round := 1; round <= 3; round++ {
+		sched.AdvanceTime(int64(time.Second))
+		sched.WaitQuiescent()
+		usable := map[string]bool{}
+		for _, h := range set.Healthy() {
+			usable[h.Addr] = true
+		}
+		wrong, example := 0, ""
+		for _, h := range hs {
+			wantUsable := !(chk.fails[h.Addr] && chk.n[h.Addr] > int(cfg.FallThreshold))
+			if usable[h.Addr] != wantUsable {
+				wrong++
+				if example == "" {
+					example = fmt.Sprintf("%s usable=%v after %d checks of its own (failing=%v)", h.Addr, usable[h.Addr], chk.n[h.Addr], chk.fails[h.Addr])
+				}
+			}
+		}
+		if wrong > 0 {
+			sched.Fail("health-differs-from-own-check-results / more hosts than the check concurrency", fmt.Sprintf("%s, round %d: %d hosts differ, e.g. %s", tag, round, wrong, example))
+			break
+		}
+	}
+	stopped := false
+	sched.GoNamed("stopper", func() { m.Stop(); stopped = true })
+	sched.WaitQuiescent()
+	if !stopped {
+		sched.Fail("monitor-stop-never-returns / more hosts than the check concurrency", tag)
+	}
+	sched.SetOutcome(fmt.Sprint(n))
+}
+
 func init() {
+	sched.Register(&sched.Scenario{Name: "C15/hc-many-hosts", Setup: func(tier string) (sched.Config, func()) {
+		return sched.Config{Bounds: sched.Bounds{}, Iterative: true, MaxSteps: 4000000}, c15manyHostsBody
+	}})
 	sched.Register(&sched.Scenario{Name: "C09/hc-many-hosts", Setup: func(tier string) (sched.Config, func()) {
 		return sched.Config{Bounds: sched.Bounds{}, Iterative: true, MaxSteps: 2000000}, c09manyHostsBody
 	}})
